@@ -73,6 +73,10 @@ pub enum Funds {
     Lst,
     Other,
     None,
+    /// two coins in one message: the expected coin plus a second one (the LST, resp. the staked asset, resp. a foreign denom)
+    NativeAndLst,
+    NativeAndOther,
+    LstAndNative,
 }
 
 #[derive(Clone, Debug)]
@@ -157,6 +161,17 @@ pub fn funds_coin(w: &Who, f: &Funds, amount: Uint128) -> Vec<cosmwasm_std::Coin
         Funds::Lst => vec![coin(&w.lst_denom(), amount)],
         Funds::Other => vec![coin(addr::OTHER_DENOM, amount)],
         Funds::None => vec![],
+        // the chain hands coins over sorted by denom
+        Funds::NativeAndLst | Funds::LstAndNative => {
+            let mut v = vec![coin(addr::NATIVE_DENOM, amount), coin(&w.lst_denom(), amount)];
+            v.sort_by(|a, b| a.denom.cmp(&b.denom));
+            v
+        }
+        Funds::NativeAndOther => {
+            let mut v = vec![coin(addr::NATIVE_DENOM, amount), coin(addr::OTHER_DENOM, amount)];
+            v.sort_by(|a, b| a.denom.cmp(&b.denom));
+            v
+        }
     }
 }
 
@@ -621,6 +636,10 @@ pub fn post_inv(cx: &Ctx, b: &Built, s: &StepOut) {
             _ => "C07",
         };
         claim(cx.f, &format!("{prop}:{c}"), false);
+        // C01 counts a refunded transfer as "awaiting re-send": that presupposes a record that lets it be re-sent
+        if c.contains("world state Refunded vs record status") || (c.contains("has no record") && c.contains("Refunded")) {
+            claim(cx.f, "C01:every refunded transfer is recorded as refundable, so that it is awaiting re-send and not stranded", false);
+        }
     }
     for (label, c) in scen::inv_terms(sn, &b.chain, &b.ghost) {
         prove(cx.f, &label, c);
